@@ -200,7 +200,7 @@ fn search_server(seed: u64, budget: usize) -> Option<Value> {
 }
 
 // ---------------------------------------------------------------------------------------------
-// C06: chains.  calls: 0 = plain, 1 = oneway, 2 = more.  script[i] for non-oneway call i:
+// C06: chains.  calls: 0 = plain, 1 = oneway, 2 = more, 3 = oneway + more (owed nothing).  script[i] for non-oneway call i:
 // (k continuing replies, final kind: 0 = success, 1 = declared error)
 fn run_chain(flags: &[u8], script: &[(usize, u8)], cuts: &[usize]) -> (Vec<String>, Vec<String>) {
     use futures_util::stream::StreamExt;
@@ -208,7 +208,7 @@ fn run_chain(flags: &[u8], script: &[(usize, u8)], cuts: &[usize]) -> (Vec<Strin
     let mut expected = Vec::new();
     let mut si = 0;
     for (i, f) in flags.iter().enumerate() {
-        if *f == 1 { continue; }
+        if *f == 1 || *f == 3 { continue; }
         let (k, fin) = script[si % script.len().max(1)];
         si += 1;
         let k = if *f == 2 { k } else { 0 };
@@ -235,7 +235,7 @@ fn run_chain(flags: &[u8], script: &[(usize, u8)], cuts: &[usize]) -> (Vec<Strin
     let sock = ScriptedSocket::new(&wire, cuts);
     let script_h = sock.0.clone();
     let mut conn = zlink_core::Connection::new(sock);
-    let mk = |i: usize, f: u8| Call::new(M::B { a: i as u32 }).set_oneway(f == 1).set_more(f == 2);
+    let mk = |i: usize, f: u8| Call::new(M::B { a: i as u32 }).set_oneway(f == 1 || f == 3).set_more(f == 2 || f == 3);
     let mut got = Vec::new();
     {
         let mut chain = conn.chain_call::<M, P, E>(&mk(0, flags[0])).unwrap();
@@ -275,7 +275,7 @@ fn search_chain(seed: u64, budget: usize) -> Option<Value> {
     let mut rng = Rng(seed.wrapping_mul(0x9E3779B97F4A7C15) | 1);
     for _ in 0..budget {
         let n = 1 + rng.below(5);
-        let flags: Vec<u8> = (0..n).map(|_| rng.below(3) as u8).collect();
+        let flags: Vec<u8> = (0..n).map(|_| rng.below(4) as u8).collect();
         let script: Vec<(usize, u8)> = (0..n).map(|_| (rng.below(3), rng.below(2) as u8)).collect();
         let cuts: Vec<usize> = match rng.below(3) { 0 => vec![], 1 => vec![1 + rng.below(9)], _ => (0..3).map(|_| 1 + rng.below(50)).collect() };
         let (exp, got) = run_chain(&flags, &script, &cuts);
@@ -328,6 +328,20 @@ fn search_idl(seed: u64, budget: usize) -> Option<Value> {
             Ok(Ok(name)) if name == n => {}
             Ok(other) => return Some(json!({"kind":"idl_legal","text":t,"name":n,"why":format!("legal interface text rejected or mis-named: {other:?}")})),
             Err(_) => return Some(json!({"kind":"idl_legal","text":t,"name":n,"why":"parser panicked"})),
+        }
+    }
+    // legal layouts: every member must end up in the tree
+    for (t, nm, nt, ne) in [
+        ("interface a.b\n# doc\n#\nmethod Ping() -> ()\n", 1usize, 0usize, 0usize),
+        ("# top\n#\ninterface a.b\n\ntype T (x: int)\n#\n# second\nerror E ()\nmethod M(a: T) -> (b: ?T)\n", 1, 1, 1),
+        ("interface a.b\nmethod A() -> ()\n  # c1\n\tmethod B(\n  # p\n  x: int\n) -> ()\ntype E (a, b)\n", 2, 1, 0),
+    ] {
+        let t2 = t.to_string();
+        let r = std::panic::catch_unwind(move || zlink_core::idl::Interface::try_from(t2.as_str()).map(|i| (i.methods().count(), i.custom_types().count(), i.errors().count())).map_err(|e| e.to_string()));
+        match r {
+            Ok(Ok(c)) if c == (nm, nt, ne) => {}
+            Ok(other) => return Some(json!({"kind":"idl_members","text":t,"expect":[nm,nt,ne],"why":format!("legal text: expected (methods, types, errors) = {:?}, got {other:?}", (nm, nt, ne))})),
+            Err(_) => return Some(json!({"kind":"idl_members","text":t,"expect":[nm,nt,ne],"why":"parser panicked"})),
         }
     }
     let names = ["org.example.test", "a.b", "org.example.", "a-b.c-d", "a.b.", "x.y-", "x.1y", "com.3com.net"];
@@ -534,6 +548,15 @@ fn main() {
                 std::process::exit(1);
             }
             println!("REPLAY: passes on the real code");
+        }
+        Some("idl_members") => {
+            let t = w["text"].as_str().unwrap();
+            let e: Vec<usize> = w["expect"].as_array().unwrap().iter().map(|x| x.as_u64().unwrap() as usize).collect();
+            println!("text = {t:?}");
+            match zlink_core::idl::Interface::try_from(t).map(|i| (i.methods().count(), i.custom_types().count(), i.errors().count())) {
+                Ok(c) if c == (e[0], e[1], e[2]) => println!("REPLAY: passes on the real code"),
+                other => { println!("expected (methods, types, errors) = {e:?}, got {other:?}\nREPLAY: FAILS on the real code"); std::process::exit(1); }
+            }
         }
         Some("idl_legal") => {
             let t = w["text"].as_str().unwrap();
